@@ -73,11 +73,60 @@ static std::string op_pawnkey(std::istringstream& is)
     return hex(p.pawn_hash());
 }
 
+// threatscan <fen> : CANDIDATE GENERATOR only (the judge is the extracted solver): quiet non-checking moves m of the side to
+// move after which the defender (not in check, >= 13 legal moves) faces a mate-in-one threat that at most 2 of its
+// moves parry.  Output: number of such moves.
+static bool has_mate_in_one(Position& p)
+{
+    for (Move m : gen_moves(p))
+    {
+        MoveInfo mi = p.do_move(m);
+        bool mate = p.is_in_check(p.color()) && gen_moves(p).empty();
+        p.undo_move(m, mi);
+        if (mate) return true;
+    }
+    return false;
+}
+
+static std::string op_threatscan(std::istringstream& is)
+{
+    GameCase g = parse_game(is);
+    Position p(g.fen);
+    int found = 0;
+    for (Move m : gen_moves(p))
+    {
+        if (!p.move_is_quiet(m)) continue;
+        MoveInfo mi = p.do_move(m);
+        std::vector<Move> defs = gen_moves(p);
+        if (!p.is_in_check(p.color()) && defs.size() >= 13)
+        {
+            MoveInfo nmi = p.do_null_move();
+            bool threat = has_mate_in_one(p);
+            p.undo_null_move(nmi);
+            if (threat)
+            {
+                int parries = 0;
+                for (Move d : defs)
+                {
+                    MoveInfo dmi = p.do_move(d);
+                    if (!has_mate_in_one(p)) ++parries;
+                    p.undo_move(d, dmi);
+                    if (parries > 2) break;
+                }
+                if (parries >= 1 && parries <= 2) ++found;
+            }
+        }
+        p.undo_move(m, mi);
+    }
+    return std::to_string(found);
+}
+
 static std::string dispatch_eval(const std::string& op, std::istringstream& is)
 {
     if (op == "eval") return op_eval(is);
     if (op == "evalseq") return op_evalseq(is);
     if (op == "hm") return op_hm(is);
     if (op == "pawnkey") return op_pawnkey(is);
+    if (op == "threatscan") return op_threatscan(is);
     return "UNKNOWN-OP " + op;
 }
